@@ -209,16 +209,22 @@ impl Screen {
             return; // No changes.
         }
 
+        // Rows that no longer exist can not be dirty.
+        self.dirty.retain(|y| *y < lines);
         self.dirty.extend(0..lines);
 
         if lines < self.lines {
+            // The scrolling region is reset below anyway; it must not
+            // keep rows from being dropped.
+            self.margins = None;
             self.save_cursor();
             self.cursor_position(Some(0), Some(0));
             self.delete_lines(Some(self.lines - lines)); // Drop from the top.
             self.restore_cursor();
         }
 
-        if columns < self.columns {
+        let columns_shrunk = columns < self.columns;
+        if columns_shrunk {
             for line in self.buffer.values_mut() {
                 for x in columns..self.columns {
                     line.remove(&x);
@@ -228,6 +234,12 @@ impl Screen {
 
         (self.lines, self.columns) = (lines, columns);
         self.set_margins(None, None);
+
+        // Keep the cursor inside the new bounds.
+        if columns_shrunk {
+            self.ensure_hbounds();
+        }
+        self.ensure_vbounds(None);
     }
 
     // Ensure the cursor is within horizontal screen bounds."""
